@@ -547,3 +547,90 @@ pub fn ne_peel_b<F: FnMut(&mut u8)>(t: &mut Vec<u8>, mut f: F) {
         rest = if tail.len() > 1 { &mut tail[1..] } else { tail };
     }
 }
+
+// ---- labelled break out of nested loops  ==  any(any)  ==  flag
+pub fn eq_label_a<P: Fn(&u8, &u8) -> bool>(xs: &[u8], ys: &[u8], p: P) -> bool {
+    xs.iter().any(|x| ys.iter().any(|y| p(x, y)))
+}
+pub fn eq_label_b<P: Fn(&u8, &u8) -> bool>(xs: &[u8], ys: &[u8], p: P) -> bool {
+    let mut found = false;
+    'outer: for x in xs {
+        for y in ys {
+            if p(x, y) {
+                found = true;
+                break 'outer;
+            }
+        }
+    }
+    found
+}
+pub fn eq_label_c<P: Fn(&u8, &u8) -> bool>(xs: &[u8], ys: &[u8], p: P) -> bool {
+    for x in xs {
+        for y in ys {
+            if p(x, y) {
+                return true;
+            }
+        }
+    }
+    false
+}
+pub fn ne_label_a<P: Fn(&u8, &u8) -> bool>(xs: &[u8], ys: &[u8], p: P) -> bool {
+    xs.iter().any(|x| ys.iter().any(|y| p(x, y)))
+}
+pub fn ne_label_b<P: Fn(&u8, &u8) -> bool>(xs: &[u8], ys: &[u8], p: P) -> bool {
+    let mut found = false;
+    for x in xs {
+        for y in ys {
+            if p(x, y) {
+                found = true;
+                break;
+            }
+        }
+    }
+    found
+}
+
+// ---- match with guards  ==  nested if
+pub fn eq_guard_a<P: Fn(usize) -> bool>(v: Verdict, p: P) -> u8 {
+    match v {
+        Verdict::None => 0,
+        Verdict::Single(g) if p(g) => 1,
+        Verdict::Single(_) | Verdict::Multiple => 2,
+    }
+}
+pub fn eq_guard_b<P: Fn(usize) -> bool>(v: Verdict, p: P) -> u8 {
+    if let Verdict::None = v {
+        return 0;
+    }
+    if let Verdict::Single(g) = v {
+        if p(g) {
+            return 1;
+        }
+    }
+    2
+}
+pub fn ne_guard_a<P: Fn(usize) -> bool>(v: Verdict, p: P) -> u8 {
+    eq_guard_a(v, p)
+}
+pub fn ne_guard_b<P: Fn(usize) -> bool>(v: Verdict, p: P) -> u8 {
+    match v {
+        Verdict::None => 0,
+        Verdict::Single(g) if !p(g) => 1,
+        _ => 2,
+    }
+}
+
+// ---- and_then / filter / map chains  ==  nested matches
+pub fn eq_chain_a<F: Fn(u32) -> Option<u32>, P: Fn(&u32) -> bool>(x: Option<u32>, f: F, p: P) -> u32 {
+    x.and_then(|v| f(v)).filter(|v| p(v)).map(|v| v + 1).unwrap_or(0)
+}
+pub fn eq_chain_b<F: Fn(u32) -> Option<u32>, P: Fn(&u32) -> bool>(x: Option<u32>, f: F, p: P) -> u32 {
+    let v = match x {
+        Some(v) => v,
+        None => return 0,
+    };
+    match f(v) {
+        Some(w) if p(&w) => w + 1,
+        _ => 0,
+    }
+}
